@@ -308,6 +308,16 @@ func execC15Timeout(c c15Case, r *oracle.Result) (*oracle.Result, string) {
 	if err := plain.Set(c.Key, prev); err != nil {
 		return r, "setup Set failed: " + err.Error()
 	}
+	toKey := c.TimeoutNs
+	if c.TimeoutNs < 0 {
+		// adaptive: half of what an unhurried Set of this size takes here and now, so that the
+		// timeout fires in the middle of the work whatever the load of the machine
+		t0 := time.Now()
+		if err := plain.Set(c.Key+"-probe", world.ExpandValue(c.NewLen, c.Seed+9)); err != nil {
+			return r, "probe Set failed: " + err.Error()
+		}
+		c.TimeoutNs = max(int64(time.Since(t0))/(-2*toKey), 20_000) // -1: a half, -2: a quarter
+	}
 	opts := []fscache.Option{fscache.WithBaseDir(dir), fscache.WithTimeout(time.Duration(c.TimeoutNs))}
 	if c.Enc {
 		opts = append(opts, fscache.WithEncryption(c14EncKey))
@@ -328,7 +338,7 @@ func execC15Timeout(c c15Case, r *oracle.Result) (*oracle.Result, string) {
 	if serr != nil {
 		r.Label("set-timed-out")
 		r.NonTrivial = true
-		r.NTKeys = append(r.NTKeys, fmt.Sprintf("timeout/%v/%d/%d", c.Enc, c.NewLen, c.TimeoutNs))
+		r.NTKeys = append(r.NTKeys, fmt.Sprintf("timeout/%v/%d/%d", c.Enc, c.NewLen, toKey))
 	} else {
 		r.Label("set-completed-in-time")
 	}
@@ -906,7 +916,7 @@ func TestC15Timeout(t *testing.T) {
 	RunEnum(t, checkC15, func(yield func(*world.Scenario) bool) {
 		for _, enc := range []bool{false, true} {
 			for _, n := range []int{1 << 20, 2<<20 + 17, 5 << 20} {
-				for _, to := range []int64{1, 50_000, 300_000, 1_000_000, 3_000_000} {
+				for _, to := range []int64{1, 50_000, 300_000, 1_000_000, 3_000_000, -1, -2} {
 					c := c15Case{Kind: "timeout", Enc: enc, Key: "http://a.test/timeout#0", PrevLen: 1000, NewLen: n, Seed: seed*41 + uint64(n), TimeoutNs: to}
 					if !yield(mkC15(c)) {
 						return
